@@ -194,9 +194,12 @@ def run_type_config(job):
     from .evm import Chain, log_tuple
     out = {"cfg": cfg.name, "mismatch": [], "n": 0, "error": None}
     try:
-        c = compile_src(src, cfg, formats=("bytecode", "method_identifiers"))
+        c = compile_src(src, cfg, formats=("bytecode", "bytecode_runtime", "method_identifiers"))
     except Exception as e:  # noqa
         out["error"] = f"compile: {type(e).__name__}: {e}"[:600]
+        return out
+    if (len(c["bytecode_runtime"]) - 2) // 2 > 24576:
+        out["skipped"] = "runtime code larger than the EIP-170 limit under this configuration"
         return out
     try:
         mids = {k.split("(")[0]: int(v, 16).to_bytes(4, "big") for k, v in c["method_identifiers"].items()}
